@@ -140,9 +140,13 @@ def run_random(cfg, seed, steps, weights=None, maxcmd=12, extra=None):
         for (psteps, pw, script) in phases:
             ww = dict(w)
             ww.update(pw)
-            for act in _script(cl, script, rng):
-                if cl.applicable(act):
-                    trace.append(cl.step(act))
+            for item in script:
+                if item[0] == 'quiet':
+                    quiet_phase(cl, rng, trace, state, rounds=item[1], ncmds=item[2] if len(item) > 2 else 3)
+                    continue
+                for act in _script(cl, [item], rng):
+                    if cl.applicable(act):
+                        trace.append(cl.step(act))
             for _ in range(psteps):
                 act = random_action(cl, rng, ww, state)
                 if not cl.applicable(act):
@@ -151,6 +155,53 @@ def run_random(cfg, seed, steps, weights=None, maxcmd=12, extra=None):
     finally:
         cl.close()
     return trace
+
+
+def quiet_phase(cl, rng, trace, state, rounds=30, ncmds=3):
+    rounds = max(rounds, 24)
+    """faults stop: every link is healed, every running node ticks timely, every message is delivered; when no
+    leader is known one node's election timer fires first (the counterpart of randomised timeouts).  Ends with an
+    Assert step on which the trace specification evaluates the convergence formula (C05)."""
+    N = cl.nodes
+
+    def do(act):
+        if cl.applicable(act):
+            trace.append(cl.step(act))
+    cl.script_held = set()
+    ids = sorted(n for n in N if N[n].alive)
+    for i in ids:
+        for j in ids:
+            if i != j:
+                do(('Notice', i, j))
+    for i in ids:
+        for j in ids:
+            if i != j:
+                do(('Connect', i, j))
+
+    def deliver_all():
+        for _ in range(400):
+            chans = sorted((i, j) for (i, j), q in cl.net.chan.items() if q and j in N and N[j].alive)
+            if not chans:
+                return
+            for (i, j) in chans:
+                do(('Deliver', i, j))
+    deliver_all()
+    voters = [n for n in ids if N[n].voter]
+    turn = rng.randrange(len(voters)) if voters else 0
+    for r in range(rounds):
+        for n in ids:
+            do(('Tick', n, 'h'))
+        deliver_all()
+        if r == rounds // 2:
+            for k in range(ncmds):
+                do(('Submit', rng.choice(ids), 'q%d' % (k + 1), {'kind': 'op'}))
+        leaders = [n for n in voters if N[n].obj._isLeader()]
+        followers_ok = all(N[n].obj._getLeader() is not None for n in ids)
+        if r % 3 == 2 and (not leaders or not followers_ok) and voters:
+            do(('Tick', voters[turn % len(voters)], 'j'))
+            turn += 1
+            deliver_all()
+    trace.append(cl.step(('Assert', 'converged')))
 
 
 def _script(cl, script, rng):
